@@ -581,7 +581,7 @@ class Gen:
             self.features.add('runtime_ctx')
         elif rng.random() < self.p['computed_ctx_prob'] and not self.exact_only:
             # constructor arguments computed at run time (must be evaluated exactly)
-            pexpr = rng.choice(['2 + 1', '1 + 1 + 1', '8 / 2', '3 * 2 - 1', '7 - 2'])
+            pexpr = rng.choice(['2 + 1', '1 + 1 + 1', '8 / 2', '3 * 2 - 1', '7 - 2', '9 + 2', '2.5 * 2 + 6', '26 / 2', '3 * 3'])
             text, exact = f'fp.MPFloatContext({pexpr})', False
             self.features.add('computed_ctx')
         else:
